@@ -22,16 +22,16 @@ claimed['C04'] = ("Every path of Parse, streaming NextBlock+Rewrite, Render unde
 claimed['C07'] = ("All paths of Parse+Render (IgnoreRaw, and raw-free documents) over the bounded inputs and one template per attribute-emission site; a strict tokenizer over the symbolic output asserts vocabulary, nesting, quoting and escaping (named character references must be exact HTML entities); wide and deep documents (300 children, 70 levels); solver-decided.", "§C07")
 claimed['C10'] = ("All paths of Parse+Render in 36 configurations over the bounded inputs and templates; output compared byte-for-byte (solver query per comparison) with an independent reference renderer; determinism, purity (frozen heap) and the join rule asserted, the latter also on 100-paragraph documents whose output crosses 4 KiB; one renderer value reused across documents and reconfigured between calls; wide and deep documents.", "§C10")
 claimed['C17'] = ("All paths of Parse+Render with and without each of 5 predicates over HTML templates with symbolic holes (incl. TAB, LF, CR, FF) and short unconstrained inputs; alignment and WHATWG-tokenizer clauses asserted on the symbolic output; the nine GFM names in every letter case.", "§C17")
-claimed['C08'] = ("All paths of the streaming parser under a symbolic read schedule (chunk sizes, empty reads, EOF-with-data are solver variables) and a symbolic fault point, over the bounded inputs, plus 8 KiB-boundary inputs (NUL runs, long lines) with solver-chosen read sizes; compared with in-memory Parse by deep equality; error persistence asserted.", "§C08")
+claimed['C08'] = ("All paths of the streaming parser under a symbolic read schedule (chunk sizes, empty reads, EOF-with-data are solver variables) and a symbolic fault point, over the bounded inputs, plus 8 KiB-boundary inputs (NUL runs, long lines) with solver-chosen read sizes; compared with in-memory Parse by deep equality; error persistence asserted against a reader that reports its fault only once and then delivers more data.", "§C08")
 claimed['C09'] = ("All paths of Parse+Render on D and on its quoted ('> ' and, for D without space-initial lines, bare '>') / list-indented form (marker and width are solver variables) over the bounded inputs, multi-line templates and a 989-character multi-line label; single-root and HTML-relation clauses on symbolic outputs.", "§C09")
 claimed['C14'] = ("All paths of Parse+Render on x and its CRLF/CR/padded/newline-terminated variants over the bounded inputs and templates; equality of outputs/positions decided by the solver.", "§C14")
 claimed['C16'] = ("All paths of stream-parsing the bounded inputs/templates and re-parsing each root block's Source alone; single block, identical tree and zero position asserted.", "§C16")
 claimed['C11'] = ("Every sequence of units up to the bound is explored (classes enumerated through the solver, bytes within a class symbolic); the rendered emphasis structure is compared with a transcription of the spec's delimiter-run algorithm; one unit class is an arbitrary (symbolic) character of U+0080..U+00FF. Unit level: processEmphasis is run from every directly constructed delimiter stack of up to 4 entries (5-6 in restricted menus) with symbolic can-open/can-close flags and compared with the same reference.", "§C11")
 claimed['C12'] = ("All label pairs over a 13-member alphabet up to the bound in all four reference forms (shortcut, collapsed, full, image), all orders/placements of competing definitions (separate root blocks and different nesting depths inside one container), multi-line labels inside containers, two definitions on adjacent lines of one paragraph in LF/CRLF/bare-CR spelling, and closure clauses over bounded inputs and link templates; resolution compared with a reference normaliser.", "§C12")
 claimed['C18'] = ("All callback policies (every Pre/Post return value and nil-ness is a solver variable) over six real trees, virtual roots and all virtual tree shapes up to the bound, plus wide (66-700 children) and deep (70-300 levels) real trees with the position of one false-returning callback a solver variable (a menu of 8 positions for the largest); the event trace is checked against a recursive reference walker.", "§C18")
-claimed['C06'] = ("Every abstract document within the node budget, with every spelling choice of the canonical serialiser (markers, fences, indentation, tab spellings of block quote markers, LF/CRLF) a solver variable and symbolic letters/punctuation/code bytes; rendered HTML compared with the HTML computed from the abstract document; plus arithmetic oracles for the tab/column rule behind five container prefixes and for a tab after a list marker behind six, explicit tight/loose oracles (two-item lists; looseness across nesting levels), escaped punctuation in every escape-processing context (titles, link text, info strings, headings, destinations) and trailing blank lines of indented code.", "§C06")
+claimed['C06'] = ("Every abstract document within the node budget, with every spelling choice of the canonical serialiser (markers, fences, indentation, tab spellings of block quote markers, LF/CRLF) a solver variable and symbolic letters/punctuation/code bytes; rendered HTML compared with the HTML computed from the abstract document; plus arithmetic oracles for the tab/column rule behind five container prefixes and for a tab after a list marker behind six, explicit tight/loose oracles (two-item lists; looseness across nesting levels), escaped punctuation in every escape-processing context (titles, link text, info strings, headings, destinations), trailing blank lines of indented code and verbatim code content (leading TAB included) inside containers.", "§C06")
 claimed['C19'] = ("Reduction: non-interference. The premise (no call writes to pre-existing state) is established by bounded symbolic execution with the whole heap frozen, for every input in the bound; interleavings are not explored. Overlap is additionally probed sequentially: a walk and a render started from inside a callback of another walk/render of the same tree must leave it undisturbed, and a Format call that follows a failed one must equal the first.", "§C19")
-claimed['C20'] = ("All paths of Parse+Format over the bounded inputs with healthy and failing writers (failure point a solver variable); canonical documents within the node budget, ordered items of every marker width, fenced code with fence-like content lines, escaped punctuation at line starts inside containers: HTML preserved and Format idempotent; a healthy call after a failed one gives the same bytes.", "§C20")
+claimed['C20'] = ("All paths of Parse+Format over the bounded inputs with healthy and failing writers (failure point a solver variable); canonical documents within the node budget, ordered items of every marker width, fenced code with fence-like content lines, escaped punctuation at line starts inside containers: HTML preserved and Format idempotent; a healthy call after a failed one gives the same bytes; three structural matrices (tight items holding a second block, inline constructs continuing on the next line inside containers, loose lists after another block).", "§C20")
 levels = {'C19': 'other'}
 reasons = {}
 
